@@ -170,6 +170,7 @@ class SandboxCallTracer(SandboxBasicTracer, Bdb):
     def __init__(self):
         super().__init__()
         self.calls = {}
+        self._old_traces = []
 
     def user_call(self, frame, argument_list):
         """
@@ -186,11 +187,13 @@ class SandboxCallTracer(SandboxBasicTracer, Bdb):
 
     def __enter__(self):
         self.reset()
-        self._old_trace = sys.gettrace()
+        # Executions nest (a student file importing another student file enters
+        # this tracer again), so the previous trace functions form a stack
+        self._old_traces.append(sys.gettrace())
         sys.settrace(self.trace_dispatch)
 
     def __exit__(self, exc_type, exc_val, traceback):
-        sys.settrace(self._old_trace)
+        sys.settrace(self._old_traces.pop() if self._old_traces else None)
         self.quitting = True
         # Return true to suppress exception (if it is a BdbQuit)
         return isinstance(exc_type, BdbQuit)
